@@ -66,6 +66,8 @@ _NAIVE = {
 
 
 def naive_ops(t):
+    if t[0] == "anno":
+        return naive_ops(t[2])
     out = [_NAIVE[t[0]]]
     for c in ir.children(t):
         out.extend(naive_ops(c))
